@@ -112,6 +112,9 @@ func runSolver(ctx context.Context, spec solverSpec, file string, timeoutS, seed
 	case "unsat", "sat":
 		return first, out, dur
 	}
+	if strings.Contains(out, "(error") && !strings.Contains(out, "timeout") {
+		return "error", out, dur
+	}
 	return "unknown", out, dur
 }
 
@@ -175,7 +178,9 @@ func Solve(rep *FuncReport, o *Obligation, dir string, idx int, timeoutS, seed i
 			if definite >= need {
 				break
 			}
-		} else if res.Status == "" {
+		} else if x.status == "error" && (res.Status == "" || res.Status == "error") {
+			res.Status = "error"
+		} else if res.Status == "" || res.Status == "error" {
 			res.Status = "unknown"
 		}
 	}
